@@ -142,13 +142,26 @@ Section NodeProofs.
     eapply agg_partial_wf; exact H.
   Qed.
 
+  (* broadcastNextPartial either declines (the round's time has not come on the node's clock) or
+     signs, hands its own partial to the aggregator and broadcasts it *)
+  Lemma emit_on_shape s cur upon s' o : emit_on s cur upon = (s', o) ->
+    (s' = s /\ o = [] /\ may_sign C s (fst (sign_target cur upon)) = false) \/
+    (exists r p o1, sign_target cur upon = (r, p) /\ may_sign C s r = true /\
+       agg_partial s r p (own_psig (g_poly (s_grp s)) r p) = (s', o1) /\
+       o = OEmit r p (own_psig (g_poly (s_grp s)) r p) (s_now s) :: o1).
+  Proof.
+    unfold Node.emit_on. intros H. destruct (sign_target cur upon) as [r p] eqn:Et.
+    destruct (may_sign C s r) eqn:Em; cbn [negb] in H.
+    - destruct (Node.agg_partial _ _ _ _ _ _ _ _) as [s1 o1] eqn:E. inversion H; subst.
+      right. exists r, p, o1. auto.
+    - inversion H; subst. left. auto.
+  Qed.
+
   Lemma emit_on_wf s cur upon s' o : emit_on s cur upon = (s', o) -> wf_step s s' o.
   Proof.
-    unfold Node.emit_on. intros H.
-    destruct (if cur =? b_round upon then _ else _) as [r p].
-    destruct (Node.agg_partial _ _ _ _ _ _ _ _) as [s1 o1] eqn:E.
-    inversion H; subst. apply agg_partial_wf in E.
-    destruct E as [E1 E2]. split; simpl; assumption.
+    intros H. destruct (emit_on_shape _ _ _ _ _ H) as [[-> [-> _]]|[r [p [o1 [_ [_ [E ->]]]]]]].
+    - apply wf_refl; reflexivity.
+    - apply agg_partial_wf in E. destruct E as [E1 E2]. split; simpl; assumption.
   Qed.
 
   Lemma try_node_wf bs : forall s upto s' o, try_node s upto bs = (s', o) -> wf_step s s' o.
@@ -207,15 +220,17 @@ Section NodeProofs.
         apply do_sync_wf in E2. exact (wf_trans _ _ _ _ _ W1 E2).
       + inversion H; subst. exact W1.
     - destruct (s_running s); simpl in H; [|inversion H; subst; apply wf_refl; reflexivity].
-      destruct (if rho =? b_round (head s) then _ else _) as [r p].
+      destruct (sign_target rho (head s)) as [r p].
       set (s0 := mkS (s_now s) (s_chain s) (s_cache s) rho (s_timers s) (s_grp s) (s_pending s) (s_running s)) in *.
       destruct (if b_round (head s) + 1 <? rho then _ else _) as [s1 o1] eqn:E1.
-      destruct (Node.agg_partial _ _ _ _ _ _ _ _) as [s2 o2] eqn:E2.
-      inversion H; subst.
       assert (W1 : wf_step s s1 o1).
       { destruct (b_round (head s) + 1 <? rho).
         - apply do_sync_wf in E1. eapply wf_chain_eq; [|exact E1]. reflexivity.
         - inversion E1; subst. apply wf_refl; reflexivity. }
+      match type of H with context[may_sign C ?x r] => destruct (may_sign C x r) eqn:Em end; cbn [negb] in H.
+      2:{ inversion H; subst. exact W1. }
+      destruct (Node.agg_partial _ _ _ _ _ _ _ _) as [s2 o2] eqn:E2.
+      inversion H; subst.
       apply agg_partial_wf in E2.
       pose proof (wf_trans _ _ _ _ _ W1 E2) as [W3 W4]. split; simpl; assumption.
     - destruct (s_running s); simpl in H; [|inversion H; subst; apply wf_refl; reflexivity].
@@ -402,39 +417,28 @@ Section NodeTime.
   Definition emit_round (cur : Z) (upon : beacon) : Z :=
     if cur =? b_round upon then cur else b_round upon + 1.
 
-  Lemma emit_on_spec s cur upon s' o : emit_on s cur upon = (s', o) ->
-    exists p sg o', o = OEmit (emit_round cur upon) p sg (s_now s) :: o' /\
-                    forallb (fun x => negb (is_emit x)) o' = true /\ s_now s' = s_now s.
-  Proof.
-    unfold Node.emit_on, emit_round. intros H.
-    destruct (cur =? b_round upon);
-      destruct (Node.agg_partial _ _ _ _ _ _ _ _) as [s1 o1] eqn:E; inversion H; subst;
-      do 3 eexists; (split; [reflexivity|]); split;
-      solve [eapply agg_no_emit; exact E | eapply agg_now; exact E].
-  Qed.
-
-  (* ---- emissions are never for a round ahead of the node's own clock, provided the stored
-          head is not ahead of that clock when a tick is handled (see C04_full_refuted) ---- *)
-  Hypothesis Hp : dom_p (c_period C).
-  Hypothesis Hg : dom_g (c_genesis C).
-
   Definition cr (now : Z) := current_round now (c_period C) (c_genesis C).
   Definition now_ok (now : Z) := now_dom (c_genesis C) now.
 
-  Definition timer_ok (now : Z) (t : timer) := b_round (t_latest t) + 1 <= t_cur t /\ t_cur t <= cr now.
-  Definition inv4 (s : nstate) :=
-    now_ok (s_now s) /\ s_cur s <= cr (s_now s) /\ Forall (timer_ok (s_now s)) (s_timers s).
+  (* broadcastNextPartial: nothing at all, or one partial for the target round -- which is then not
+     ahead of the node's own clock -- followed by what the aggregator does with it *)
+  Lemma emit_on_spec s cur upon s' o : emit_on s cur upon = (s', o) ->
+    (o = [] /\ s' = s) \/
+    (exists p sg o', o = OEmit (emit_round cur upon) p sg (s_now s) :: o' /\
+                     forallb (fun x => negb (is_emit x)) o' = true /\ s_now s' = s_now s /\
+                     emit_round cur upon <= cr (s_now s)).
+  Proof.
+    intros H. pose proof H as Hs. apply emit_on_shape in Hs.
+    destruct Hs as [[-> [-> _]]|[r [p [o1 [Et [Em [E ->]]]]]]]; [left; auto|right].
+    assert (Er : r = emit_round cur upon).
+    { unfold sign_target in Et. unfold emit_round. destruct (cur =? b_round upon); inversion Et; reflexivity. }
+    subst r. do 3 eexists. split; [reflexivity|]. split; [eapply agg_no_emit; exact E|].
+    split; [eapply agg_now; exact E|]. unfold may_sign in Em. apply Z.leb_le in Em. exact Em.
+  Qed.
 
-  (* admissible events: the clock only moves forward, and a tick carries a round that is not in
-     the future of the clock when it is handled (ticker.go computes it from the clock) *)
-  Definition adm (s : nstate) (e : event) : Prop :=
-    match e with
-    | EAdv d | EClock d => 0 <= d /\ now_ok (s_now s + d)
-    | ETick rho _ | ETickSF rho _ =>
-        rho <= cr (s_now s) /\ (b_round (head s) < cr (s_now s) \/ b_round (head s) = rho)
-    | _ => True
-    end.
-
+  (* ---- C04, node-local and unconditional: whatever the state and whatever the event -- a tick of
+          any round (also a stale one, handled late), a woken sleeper, a chain ahead of the clock
+          -- every partial the node releases is for a round that is not ahead of its own clock ---- *)
   Definition emits_timely (o : list out) : Prop :=
     forall r p sg n, In (OEmit r p sg n) o -> r <= cr n.
 
@@ -446,59 +450,18 @@ Section NodeTime.
   Lemma emits_timely_app a b : emits_timely a -> emits_timely b -> emits_timely (a ++ b).
   Proof. intros Ha Hb r p sg n Hin. apply in_app_or in Hin as [H|H]; eauto. Qed.
 
+  Lemma emit_on_timely s cur upon s' o : emit_on s cur upon = (s', o) -> emits_timely o.
+  Proof.
+    intros H. destruct (emit_on_spec _ _ _ _ _ H) as [[-> _]|[p [sg [o' [-> [Ne [_ Hr]]]]]]].
+    - intros ? ? ? ? [].
+    - intros r' p' sg' n' [Hin|Hin]; [inversion Hin; subst; exact Hr|].
+      eapply (no_emit_timely _ Ne); exact Hin.
+  Qed.
+
   Lemma after_put_fields s b :
     s_now (after_put s b) = s_now s /\ s_cur (after_put s b) = s_cur s /\
     s_timers (after_put s b) = s_timers s /\ s_running (after_put s b) = s_running s.
   Proof. unfold after_put. destruct (s_pending s) as [[t g]|]; [destruct (t <=? b_round b)|]; auto. Qed.
-
-  Lemma inv4_same s s' : s_now s' = s_now s -> s_cur s' = s_cur s -> s_timers s' = s_timers s ->
-    inv4 s -> inv4 s'.
-  Proof. unfold inv4. intros -> -> ->. auto. Qed.
-
-  Lemma agg_fields s r p sg s' o : agg_partial s r p sg = (s', o) ->
-    s_now s' = s_now s /\ s_cur s' = s_cur s /\
-    (s_timers s' = s_timers s \/
-     exists b, s_timers s' = s_timers s ++ [mkT (s_now s + c_catchup C) (s_cur s) b] /\ b_round b < s_cur s).
-  Proof.
-    unfold Node.agg_partial. intros H.
-    destruct (negb ((b_round (head s) <? r) && (r <=? b_round (head s) + c_limit C + 1))).
-    { inversion H; subst. auto. }
-    destruct (cache_find _ _ _) as [e|].
-    2:{ inversion H; subst. auto. }
-    destruct (Z.of_nat (length (ce_sigs e)) <? g_thr (s_grp s)).
-    { inversion H; subst. auto. }
-    destruct (recov _ _ _ _ _) as [fs|].
-    2:{ inversion H; subst. auto. }
-    destruct (vrec r p fs); simpl in H.
-    2:{ inversion H; subst. auto. }
-    destruct (b_round (head s) + 1 =? r); simpl in H.
-    2:{ inversion H; subst. auto. }
-    destruct (stack_accepts C (head s) (mkB r p fs)); simpl in H.
-    2:{ inversion H; subst. auto. }
-    match type of H with context[after_put ?x ?b] => destruct (after_put_fields x b) as [F1 [F2 [F3 _]]] end.
-    destruct (r <? s_cur s) eqn:Hlt; inversion H; subst; cbn [s_now s_cur s_timers]; cbn [s_now s_cur s_timers] in F1, F2, F3.
-    - try rewrite F1; try rewrite F2; try rewrite F3. split; [reflexivity|]. split; [reflexivity|]. right.
-      eexists. split; [reflexivity|]. apply Z.ltb_lt in Hlt.
-      unfold stored_form. destruct (c_chained C); cbn [b_round]; lia.
-    - try rewrite F1; try rewrite F2; try rewrite F3. auto.
-  Qed.
-
-  Lemma agg_inv4 s r p sg s' o : agg_partial s r p sg = (s', o) -> inv4 s -> inv4 s'.
-  Proof.
-    intros H [I1 [I2 I3]]. apply agg_fields in H as [F1 [F2 F3]].
-    unfold inv4. rewrite F1, F2. split; [exact I1|]. split; [exact I2|].
-    destruct F3 as [->|[b [-> Hb]]]; [exact I3|].
-    apply Forall_app. split; [exact I3|]. constructor; [|constructor].
-    unfold timer_ok; cbn [t_latest t_cur]. lia.
-  Qed.
-
-  Lemma emit_on_inv4 s cur upon s' o : emit_on s cur upon = (s', o) -> inv4 s -> inv4 s'.
-  Proof.
-    unfold Node.emit_on. intros H Hi.
-    destruct (if cur =? b_round upon then _ else _) as [r p].
-    destruct (Node.agg_partial _ _ _ _ _ _ _ _) as [s1 o1] eqn:E. inversion H; subst.
-    eapply agg_inv4; eauto.
-  Qed.
 
   Lemma try_node_fields bs : forall s upto s' o, try_node s upto bs = (s', o) ->
     s_now s' = s_now s /\ s_cur s' = s_cur s /\ s_timers s' = s_timers s /\
@@ -508,7 +471,10 @@ Section NodeTime.
     { inversion H; subst. auto. }
     destruct (negb (vrec _ _ _)). { inversion H; subst. auto. }
     destruct (negb (stack_accepts _ _ _)). { inversion H; subst. auto. }
-    destruct (after_put_fields s (stored_form C b)) as [F1 [F2 [F3 _]]].
+    assert (F : s_now (after_put s (stored_form C b)) = s_now s /\ s_cur (after_put s (stored_form C b)) = s_cur s /\
+                s_timers (after_put s (stored_form C b)) = s_timers s).
+    { unfold after_put. destruct (s_pending s) as [[t g]|]; [destruct (t <=? b_round (stored_form C b))|]; auto. }
+    destruct F as [F1 [F2 F3]].
     destruct (b_round b =? upto). { inversion H; subst. auto. }
     destruct (Node.try_node _ _ _ _ _) as [s2 o2] eqn:E. inversion H; subst.
     apply IH in E as [G1 [G2 [G3 G4]]]. rewrite G1, G2, G3. auto.
@@ -524,135 +490,75 @@ Section NodeTime.
     - inversion H; subst. auto.
   Qed.
 
-  Lemma fire_timers_ok ts : forall s s' o, fire_timers s ts = (s', o) ->
-    inv4 s -> Forall (timer_ok (s_now s)) ts -> inv4 s' /\ emits_timely o /\ s_now s' = s_now s.
+  Lemma fire_timers_timely ts : forall s s' o, fire_timers s ts = (s', o) -> emits_timely o.
   Proof.
-    induction ts as [|t ts IH]; intros s s' o H Hi Ht; simpl in H.
-    { inversion H; subst. split; [exact Hi|]. split; [intros ? ? ? ? []|reflexivity]. }
+    induction ts as [|t ts IH]; intros s s' o H; simpl in H.
+    { inversion H; subst. intros ? ? ? ? []. }
     destruct (Node.emit_on _ _ _ _ _ _ _ _) as [s1 o1] eqn:E1.
     destruct (Node.fire_timers _ _ _ _ _ _ _) as [s2 o2] eqn:E2. inversion H; subst.
-    inversion Ht as [|? ? [T1 T2] Ht']; subst.
-    pose proof (emit_on_inv4 _ _ _ _ _ E1 Hi) as Hi1.
-    destruct (emit_on_spec _ _ _ _ _ E1) as [p [sg [o' [Eo [Ne En]]]]].
-    assert (Ht1 : Forall (timer_ok (s_now s1)) ts) by (rewrite En; exact Ht').
-    destruct (IH _ _ _ E2 Hi1 Ht1) as [Hi2 [Et2 En2]].
-    split; [exact Hi2|]. split; [|congruence].
-    apply emits_timely_app; [|exact Et2]. subst o1.
-    intros r' p' sg' n' [Hin|Hin].
-    - inversion Hin; subst. unfold emit_round.
-      destruct (t_cur t =? b_round (t_latest t)) eqn:E; [apply Z.eqb_eq in E; lia|lia].
-    - eapply (no_emit_timely _ Ne); exact Hin.
+    apply emits_timely_app; [eapply emit_on_timely; exact E1|eapply IH; exact E2].
   Qed.
 
-  Lemma timer_ok_mono a b t : now_ok a -> now_ok b -> a <= b -> timer_ok a t -> timer_ok b t.
+  Lemma fire_due_timely s s' o : fire_due s = (s', o) -> emits_timely o.
   Proof.
-    unfold timer_ok, cr. intros Ha Hb Hab [H1 H2]. split; [exact H1|].
-    pose proof (current_round_mono a b _ _ Hp Hg Ha Hb Hab). lia.
+    unfold Node.fire_due. intros H. destruct (s_running s).
+    - eapply fire_timers_timely; exact H.
+    - inversion H; subst. intros ? ? ? ? [].
   Qed.
 
-  Lemma fire_due_ok s s' o : fire_due s = (s', o) -> inv4 s -> inv4 s' /\ emits_timely o.
+  Theorem step_emits_timely s e s' o : step s e = (s', o) -> emits_timely o.
   Proof.
-    unfold Node.fire_due. intros H [I1 [I2 I3]].
-    set (s0 := mkS (s_now s) (s_chain s) (s_cache s) (s_cur s)
-                   (filter (fun t => negb (t_fire t <=? s_now s)) (s_timers s)) (s_grp s) (s_pending s) (s_running s)) in *.
-    assert (Hi0 : inv4 s0).
-    { unfold inv4, s0; cbn [s_now s_cur s_timers]. repeat split; try assumption.
-      rewrite Forall_forall in *. intros t Ht. apply filter_In in Ht as [Ht _]. auto. }
-    destruct (s_running s).
-    - assert (Hd : Forall (timer_ok (s_now s0)) (filter (fun t => t_fire t <=? s_now s) (s_timers s))).
-      { rewrite Forall_forall in *. intros t Ht. apply filter_In in Ht as [Ht _]. apply I3; exact Ht. }
-      destruct (fire_timers_ok _ _ _ _ H Hi0 Hd) as [A [B _]]. auto.
-    - inversion H; subst. split; [exact Hi0|]. intros ? ? ? ? [].
-  Qed.
-
-  Lemma advance_inv4 s d : inv4 s -> 0 <= d -> now_ok (s_now s + d) -> inv4 (advance_clock s d).
-  Proof.
-    intros [I1 [I2 I3]] Hd Hn. unfold inv4, advance_clock; cbn [s_now s_cur s_timers].
-    split; [exact Hn|]. split.
-    - pose proof (current_round_mono (s_now s) (s_now s + d) _ _ Hp Hg I1 Hn ltac:(lia)). unfold cr in *. lia.
-    - rewrite Forall_forall in *. intros t Ht. eapply timer_ok_mono; [exact I1|exact Hn|lia|auto].
-  Qed.
-
-  Theorem step_emits_timely s e s' o :
-    inv4 s -> adm s e -> step s e = (s', o) -> inv4 s' /\ emits_timely o.
-  Proof.
-    intros Hi Ha H.
-    destruct e as [d|d| |rho sync|rho sync|r p sg| |sync|target g]; simpl in H, Ha.
-    - destruct Ha as [Hd Hn]. apply fire_due_ok in H; [exact H|]. apply advance_inv4; assumption.
-    - destruct Ha as [Hd Hn]. inversion H; subst. split; [apply advance_inv4; assumption|intros ? ? ? ? []].
-    - apply fire_due_ok in H; assumption.
-    - destruct Ha as [Hr Hh].
-      destruct (s_running s); simpl in H; [|inversion H; subst; split; [exact Hi|intros ? ? ? ? []]].
-      set (s0 := mkS (s_now s) (s_chain s) (s_cache s) rho (s_timers s) (s_grp s) (s_pending s) true) in *.
-      assert (Hi0 : inv4 s0) by (destruct Hi as [I1 [I2 I3]]; unfold inv4, s0; cbn [s_now s_cur s_timers]; auto).
+    intros H.
+    destruct e as [d|d| |rho sync|rho sync|r p sg| |sync|target g]; simpl in H.
+    - eapply fire_due_timely; exact H.
+    - inversion H; subst. intros ? ? ? ? [].
+    - eapply fire_due_timely; exact H.
+    - destruct (s_running s); cbn [negb] in H; [|inversion H; subst; intros ? ? ? ? []].
       destruct (Node.emit_on _ _ _ _ _ _ _ _) as [s1 o1] eqn:E1.
-      pose proof (emit_on_inv4 _ _ _ _ _ E1 Hi0) as Hi1.
-      destruct (emit_on_spec _ _ _ _ _ E1) as [p [sg [o' [Eo [Ne En]]]]].
-      assert (Et1 : emits_timely o1).
-      { subst o1. intros r' p' sg' n' [Hin|Hin].
-        - inversion Hin; subst. unfold emit_round. cbn [s_now s0].
-          destruct (rho =? b_round (head s)) eqn:E; [lia|]. apply Z.eqb_neq in E. lia.
-        - eapply (no_emit_timely _ Ne); exact Hin. }
+      pose proof (emit_on_timely _ _ _ _ _ E1) as Et1.
       destruct (b_round (head s) + 1 <? rho).
       + destruct (Node.do_sync _ _ _ _ _) as [s2 o2] eqn:E2. inversion H; subst.
-        apply do_sync_fields in E2 as [G1 [G2 [G3 G4]]].
-        split; [eapply inv4_same; eauto|]. apply emits_timely_app; [exact Et1|apply no_emit_timely; exact G4].
-      + inversion H; subst. auto.
-    - destruct Ha as [Hr Hh].
-      destruct (s_running s); simpl in H; [|inversion H; subst; split; [exact Hi|intros ? ? ? ? []]].
-      set (s0 := mkS (s_now s) (s_chain s) (s_cache s) rho (s_timers s) (s_grp s) (s_pending s) true) in *.
-      assert (Hi0 : inv4 s0) by (destruct Hi as [I1 [I2 I3]]; unfold inv4, s0; cbn [s_now s_cur s_timers]; auto).
-      destruct (if rho =? b_round (head s) then _ else _) as [r p] eqn:Erp.
+        apply do_sync_fields in E2 as [_ [_ [_ G4]]].
+        apply emits_timely_app; [exact Et1|apply no_emit_timely; exact G4].
+      + inversion H; subst. exact Et1.
+    - destruct (s_running s); cbn [negb] in H; [|inversion H; subst; intros ? ? ? ? []].
+      destruct (sign_target rho (head s)) as [r p] eqn:Et.
       destruct (if b_round (head s) + 1 <? rho then _ else _) as [s1 o1] eqn:E1.
-      destruct (Node.agg_partial _ _ _ _ _ _ _ _) as [s2 o2] eqn:E2. inversion H; subst.
-      assert (Hi1 : inv4 s1 /\ forallb (fun x => negb (is_emit x)) o1 = true).
+      assert (Ne1 : forallb (fun x => negb (is_emit x)) o1 = true).
       { destruct (b_round (head s) + 1 <? rho).
-        - apply do_sync_fields in E1 as [G1 [G2 [G3 G4]]]. split; [eapply inv4_same; eauto|exact G4].
-        - inversion E1; subst. auto. }
-      destruct Hi1 as [Hi1 Ne1].
-      split; [eapply agg_inv4; eauto|].
+        - apply do_sync_fields in E1 as [_ [_ [_ G4]]]. exact G4.
+        - inversion E1; subst. reflexivity. }
+      match type of H with context[may_sign C ?x r] => destruct (may_sign C x r) eqn:Em end; cbn [negb] in H.
+      2:{ inversion H; subst. apply no_emit_timely; exact Ne1. }
+      destruct (Node.agg_partial _ _ _ _ _ _ _ _) as [s2 o2] eqn:E2. inversion H; subst.
       intros r' p' sg' n' [Hin|Hin].
-      + inversion Hin; subst.
-        destruct (rho =? b_round (head s)) eqn:E; inversion Erp; subst; [lia|]. apply Z.eqb_neq in E. lia.
+      + inversion Hin; subst. unfold may_sign in Em. cbn [s_now] in Em. apply Z.leb_le in Em. exact Em.
       + apply in_app_or in Hin as [Hin|Hin].
         * eapply (no_emit_timely _ Ne1); exact Hin.
         * eapply (no_emit_timely _ (agg_no_emit _ _ _ _ _ _ E2)); exact Hin.
-    - destruct (s_running s); simpl in H; [|inversion H; subst; split; [exact Hi|intros ? ? ? ? []]].
+    - destruct (s_running s); cbn [negb] in H; [|inversion H; subst; intros ? ? ? ? []].
       unfold Node.process_partial in H.
-      assert (Rej : inv4 s /\ emits_timely [OReject]) by (split; [exact Hi|intros ? ? ? ? [Hx|[]]; discriminate]).
+      assert (Rej : emits_timely [OReject]) by (intros ? ? ? ? [Hx|[]]; discriminate).
       destruct (_ <? r). { inversion H; subst. exact Rej. }
-      destruct (r <=? _). { inversion H; subst. split; [exact Hi|intros ? ? ? ? []]. }
+      destruct (r <=? _). { inversion H; subst. intros ? ? ? ? []. }
       destruct (idx_of sg <? 0). { inversion H; subst. exact Rej. }
       destruct (negb (memb _ _)). { inversion H; subst. exact Rej. }
       destruct (idx_of sg =? _). { inversion H; subst. exact Rej. }
       destruct (negb (vpart _ _ _ _)). { inversion H; subst. exact Rej. }
-      split; [eapply agg_inv4; eauto|apply no_emit_timely; eapply agg_no_emit; eauto].
-    - inversion H; subst. destruct Hi as [I1 [I2 I3]]. split; [|intros ? ? ? ? []].
-      unfold inv4; cbn [s_now s_cur s_timers]. split; [exact I1|]. split; [|constructor].
-      pose proof (current_round_ge_1 _ _ _ Hp Hg I1). unfold cr. lia.
-    - apply do_sync_fields in H as [G1 [G2 [G3 G4]]]. cbn [s_now s_cur s_timers] in *.
-      destruct Hi as [I1 [I2 I3]]. split; [|apply no_emit_timely; exact G4].
-      unfold inv4. rewrite G1, G2, G3. split; [exact I1|]. split; [|constructor].
-      pose proof (current_round_ge_1 _ _ _ Hp Hg I1). unfold cr. lia.
-    - inversion H; subst. split; [eapply inv4_same; [| | |exact Hi]; reflexivity|intros ? ? ? ? []].
+      apply no_emit_timely; eapply agg_no_emit; eauto.
+    - inversion H; subst. intros ? ? ? ? [].
+    - apply do_sync_fields in H as [_ [_ [_ G4]]]. apply no_emit_timely; exact G4.
+    - inversion H; subst. intros ? ? ? ? [].
   Qed.
 
-  (* admissibility along a run *)
-  Fixpoint run_adm (s : nstate) (es : list event) : Prop :=
-    match es with
-    | [] => True
-    | e :: es' => adm s e /\ run_adm (fst (step s e)) es'
-    end.
-
   Theorem run_emits_timely es : forall s s' os,
-    inv4 s -> run_adm s es -> run s es = (s', os) -> emits_timely (all_outs os).
+    run s es = (s', os) -> emits_timely (all_outs os).
   Proof.
-    induction es as [|e es IH]; intros s s' os Hi Ha H; simpl in H.
+    induction es as [|e es IH]; intros s s' os H; simpl in H.
     { inversion H; subst. intros ? ? ? ? []. }
     destruct (step s e) as [s1 o] eqn:E1. destruct (run s1 es) as [s2 os'] eqn:E2.
-    inversion H; subst. destruct Ha as [Ha1 Ha2]. rewrite E1 in Ha2. simpl in Ha2.
-    destruct (step_emits_timely _ _ _ _ Hi Ha1 E1) as [Hi1 Et].
-    unfold all_outs; simpl. apply emits_timely_app; [exact Et|]. eapply IH; eauto.
+    inversion H; subst. unfold all_outs; simpl.
+    apply emits_timely_app; [eapply step_emits_timely; exact E1|eapply IH; exact E2].
   Qed.
 End NodeTime.
 
@@ -833,9 +739,8 @@ Section NodeSwitch.
 
   Lemma emit_tracks s cur upon s' o : emit_on C idx_of recov vrec own_psig s cur upon = (s', o) -> tracks s s' o.
   Proof.
-    unfold Node.emit_on. intros H.
-    destruct (if cur =? b_round upon then _ else _) as [r p].
-    destruct (Node.agg_partial _ _ _ _ _ _ _ _) as [s1 o1] eqn:E. inversion H; subst.
+    intros H. apply emit_on_shape in H.
+    destruct H as [[-> [-> _]]|[r [p [o1 [_ [_ [E ->]]]]]]]; [apply tracks_nop; reflexivity|].
     apply agg_tracks in E. apply tracks_cons_nonput; [exact E|discriminate].
   Qed.
 
@@ -896,13 +801,15 @@ Section NodeSwitch.
         apply do_sync_tracks in E2. exact (tracks_trans _ _ _ _ _ T1 E2).
       + inversion H; subst. exact T1.
     - destruct (s_running s); cbn [negb] in H; [|inversion H; subst; apply tracks_nop; reflexivity].
-      destruct (if rho =? b_round (head s) then _ else _) as [r p].
+      destruct (sign_target rho (head s)) as [r p].
       destruct (if b_round (head s) + 1 <? rho then _ else _) as [s1 o1] eqn:E1.
-      destruct (Node.agg_partial _ _ _ _ _ _ _ _) as [s2 o2] eqn:E2. inversion H; subst.
       assert (T1 : tracks s s1 o1).
       { destruct (b_round (head s) + 1 <? rho).
         - apply do_sync_tracks in E1. eapply tracks_gp_eq; [|exact E1]. reflexivity.
         - inversion E1; subst. apply tracks_nop; reflexivity. }
+      match type of H with context[may_sign C ?x r] => destruct (may_sign C x r) end; cbn [negb] in H.
+      2:{ inversion H; subst. exact T1. }
+      destruct (Node.agg_partial _ _ _ _ _ _ _ _) as [s2 o2] eqn:E2. inversion H; subst.
       apply agg_tracks in E2. apply tracks_cons_nonput; [|discriminate].
       exact (tracks_trans _ _ _ _ _ T1 E2).
     - destruct (s_running s); cbn [negb] in H; [|inversion H; subst; apply tracks_nop; reflexivity].
